@@ -28,6 +28,9 @@ inductive FE where
   | setE (o : FE) (k : FE) (e : FE)                 -- o[k] = e
   | del (o : FE) (p : String)                       -- delete o.p
   | delE (o : FE) (k : FE)                          -- delete o[k]
+  | delV (x : String)                               -- delete x
+  | defRO (o : FE) (p : String) (e : FE)            -- Object.defineProperty(o, "p", {value: e, writable: false,
+                                                    --   enumerable: true, configurable: true})
   | call (f : FE) (args : FEs)                      -- f(args): no base object
   | mcall (o : FE) (p : String) (args : FEs)        -- o.p(args): this = o
   | new (f : FE) (args : FEs)
@@ -44,6 +47,8 @@ inductive FE where
   | defNE (o : FE) (p : String) (e : FE)
   | val (e : FE)                                    -- (0, e): GetValue, so a call through it has no base
   /-- direct eval("…") of a program given here in parsed form -/
+  | defFix (o : FE) (p : String) (e : FE)           -- Object.defineProperty(o, "p", {value: e, writable: false,
+                                                    --   enumerable: false, configurable: false})
   | evalD (vars : List String) (decls : FDecls) (body : FSs)
   /-- indirect eval: (0, eval)("…") -/
   | evalI (vars : List String) (decls : FDecls) (body : FSs)
@@ -64,6 +69,7 @@ inductive FS where
   | block (b : FSs)                                 -- { … }
   | withS (o : FE) (b : FSs)                        -- with (o) { … }
   | forIn (isVar : Bool) (x : String) (o : FE) (b : FSs)   -- for (x in o) { … } / for (var x in o) { … }
+  | forInI (x : String) (init : FE) (o : FE) (b : FSs)     -- for (var x = init in o) { … }
   | label (l : String) (s : FS)                     -- l: s
   | brk (l : Option String)                         -- break [l];
   | cont (l : Option String)                        -- continue [l];
